@@ -30,7 +30,7 @@ Lemma j_next_e_g_of_stream : forall guard precord cap st, wf_stream (jstream st)
   (jlift (fst (j_next_g precord false guard cap st)), snd (j_next_g precord false guard cap st)).
 Proof.
   intros guard precord cap [b start s] H. cbn [jstream] in H.
-  unfold j_next_e_g, jlift at 1. cbn [estr ebuf estart jbuf jstart jstream].
+  unfold j_next_e_g, jlift. cbn [estr ebuf estart jbuf jstart jstream].
   pose proof (read_until_e_shape 62 (of_stream s) (wf_of_stream s H)) as Sh.
   rewrite read_until_e_of_stream in *. cbn [fst snd] in Sh. specialize (Sh eq_refl).
   destruct (read_until 62 s) as [r s'] eqn:E. cbn [fst snd] in *.
@@ -45,7 +45,7 @@ Proof.
   destruct (j_next_g precord false guard cap
               {| jbuf := b; jstart := start;
                  jstream := replay_stream r (negb (is_nil (of_stream s'))) |}) as [st1 o1].
-  cbn [fst snd] in *. unfold jlift. rewrite Lo, Lb, Ls, St. reflexivity.
+  cbn [fst snd] in *. rewrite Lo, Lb, Ls, St. reflexivity.
 Qed.
 
 Lemma j_run_e_g_of_stream : forall precord fuel stop caps k st, wf_stream (jstream st) ->
@@ -131,7 +131,9 @@ Qed.
 Lemma same_until_error_is_nil : forall es1 es2, same_until_error es1 es2 -> is_nil es1 = is_nil es2.
 Proof.
   intros es1 es2 H. destruct (same_until_error_nil es1 es2 H) as [Sa Sb].
-  destruct es1, es2; try reflexivity; [specialize (Sb eq_refl)|specialize (Sa eq_refl)]; discriminate.
+  destruct es1 as [|a1 l1], es2 as [|a2 l2]; try reflexivity.
+  - specialize (Sa eq_refl). discriminate.
+  - specialize (Sb eq_refl). discriminate.
 Qed.
 
 (* one next() on related streams: same outcome, same buffer and start; the streams stay related
